@@ -630,11 +630,6 @@ theorem pkFunctional_needed :
 
 /-! ### `PkFunctional` of fetched KSK records -/
 
-theorem key_ext {a b : Key} (h1 : a.keyIdentifier = b.keyIdentifier) (h2 : a.keyTag = b.keyTag)
-    (h3 : a.ttl = b.ttl) (h4 : a.flags = b.flags) (h5 : a.protocol = b.protocol)
-    (h6 : a.algorithm = b.algorithm) (h7 : a.publicKey = b.publicKey) : a = b := by
-  cases a; cases b; simp_all
-
 /-- a KSK record is determined by label, algorithm and public key text (flags, protocol, TTL are
     fixed, the tag is computed from the RDATA) -/
 theorem kskRecord_determined {cfg : SignerConfig} {n₁ n₂ pk : String} {a b : Key}
@@ -674,21 +669,46 @@ theorem fetched_pkFunctional_iff {cfg : SignerConfig} {names : List String} {cks
     subst hpk
     exact kskRecord_determined r₁ r₂ (hc a ha b hb e).1 (hc a ha b hb e).2
 
-/-- in configuration terms: names whose configured label and algorithm agree yield one record per
-    public key text -/
+/-- split into a configuration part and a token part: a label is configured with one algorithm
+    number (configuration), and different labels are different key material (token) -/
 theorem fetched_pkFunctional_of_config {cfg : SignerConfig} {names : List String} {cks : List CompositeKey}
     (h : FetchedFor cfg names cks)
     (hcfg : ∀ n₁ ∈ names, ∀ n₂ ∈ names, ∀ k₁ k₂, cfg.kskKeys.lookup n₁ = some k₁ →
-      cfg.kskKeys.lookup n₂ = some k₂ → k₁.label = k₂.label ∧ k₁.algorithm = k₂.algorithm) :
+      cfg.kskKeys.lookup n₂ = some k₂ → k₁.label = k₂.label → k₁.algorithm = k₂.algorithm)
+    (htok : ∀ a ∈ cks, ∀ b ∈ cks, a.dns.publicKey = b.dns.publicKey →
+      a.dns.keyIdentifier = b.dns.keyIdentifier) :
     PkFunctional (cks.map (·.dns)) := by
   rw [fetched_pkFunctional_iff h]
-  intro a ha b hb _
+  intro a ha b hb e
+  have hid := htok a ha b hb e
+  refine ⟨hid, ?_⟩
   obtain ⟨n₁, hn₁, pk₁, _, r₁⟩ := h.2.1 a ha
   obtain ⟨n₂, hn₂, pk₂, _, r₂⟩ := h.2.1 b hb
   obtain ⟨k₁, hl₁, hi₁, ha₁⟩ := r₁.configured
   obtain ⟨k₂, hl₂, hi₂, ha₂⟩ := r₂.configured
-  obtain ⟨e1, e2⟩ := hcfg n₁ hn₁ n₂ hn₂ k₁ k₂ hl₁ hl₂
-  exact ⟨by rw [hi₁, hi₂, e1], by rw [ha₁, ha₂, e2]⟩
+  rw [ha₁, ha₂]
+  exact hcfg n₁ hn₁ n₂ hn₂ k₁ k₂ hl₁ hl₂ (by rw [← hi₁, ← hi₂]; exact hid)
+
+/-- **an identifier names one signing key** (hypothesis `IdFun` of `signBundle_order_free`), in
+    configuration terms, on an index-free token: names with one label have one configured entry -/
+theorem fetched_idFun_of_config (ext : Externals) (mods : List P11Module) (cfg : SignerConfig) (b : Bundle)
+    (isPublic : Bool) (tok : Token) (ht : IndexFree tok) (names : List String) (cks : List CompositeKey)
+    (s s1 : TokState) (h : fetchKeys ext mods cfg b isPublic names tok s = (.ok cks, s1))
+    (hcfg : ∀ n₁ ∈ names, ∀ n₂ ∈ names, ∀ k₁ k₂, cfg.kskKeys.lookup n₁ = some k₁ →
+      cfg.kskKeys.lookup n₂ = some k₂ → k₁.label = k₂.label → k₁ = k₂) :
+    IdFun cks := by
+  have h1 := fetchKeys_indexFree ext mods cfg b isPublic ht names s
+  rw [h] at h1
+  obtain ⟨hm, _, _⟩ := mapM_ok_mem _ _ _ h1.symm
+  intro x hx y hy e
+  obtain ⟨n₁, hn₁, f₁⟩ := (hm x).mp hx
+  obtain ⟨n₂, hn₂, f₂⟩ := (hm y).mp hy
+  obtain ⟨k₁, l₁, i₁⟩ := fetchedOf_ok f₁
+  obtain ⟨k₂, l₂, i₂⟩ := fetchedOf_ok f₂
+  have hk : k₁ = k₂ := hcfg n₁ hn₁ n₂ hn₂ k₁ k₂ l₁ l₂ (by rw [← i₁, ← i₂]; exact e)
+  rw [fetchedOf_congr ext mods cfg b isPublic tok (l₁.trans (hk ▸ l₂.symm))] at f₁
+  rw [f₁] at f₂
+  exact Except.ok.inj f₂
 
 /-- revoking keeps `PkFunctional`: the revoked form is a function of the record and keeps the
     public key text -/
@@ -706,29 +726,6 @@ theorem revoked_pkFunctional {l : List Key} {revoked : List Key} (hf : PkFunctio
   exact Except.ok.inj hyb
 
 /-! ### the run on an index-free token -/
-
-theorem loadPkcs11Key_bundle_congr (mods : List P11Module) (ksk : KskKey) (pol : KskPolicy) (b b' : Bundle)
-    (isPublic : Bool) (h1 : b'.inception = b.inception) (h2 : b'.expiration = b.expiration) :
-    loadPkcs11Key mods ksk pol b' isPublic = loadPkcs11Key mods ksk pol b isPublic := by
-  unfold loadPkcs11Key
-  rw [h1, h2]
-
-/-- `_fetch_keys` reads the configured keys, the KSK policy and the bundle's two times, nothing else -/
-theorem fetchKeys_congr (ext : Externals) (mods : List P11Module) (cfg cfg' : SignerConfig) (b b' : Bundle)
-    (isPublic : Bool) (hk : cfg'.kskKeys = cfg.kskKeys) (hp : cfg'.kskPolicy = cfg.kskPolicy)
-    (h1 : b'.inception = b.inception) (h2 : b'.expiration = b.expiration) (names : List String) :
-    fetchKeys ext mods cfg' b' isPublic names = fetchKeys ext mods cfg b isPublic names := by
-  induction names with
-  | nil => simp [fetchKeys]
-  | cons name rest ih =>
-    rw [fetchKeys, fetchKeys, hk, hp]
-    simp only [loadPkcs11Key_bundle_congr mods _ _ b b' isPublic h1 h2, ih]
-
-theorem signKeys_bundle_congr (ext : Externals) (b b' : Bundle) (keys : List Key) (sk : CompositeKey)
-    (pol : KskPolicy) (h1 : b'.inception = b.inception) (h2 : b'.expiration = b.expiration) :
-    signKeys ext b' keys sk pol = signKeys ext b keys sk pol := by
-  unfold signKeys
-  rw [h1, h2]
 
 /-- **C02, order independence of one slot on an index-free token.**  `tok` answers every operation
     the same at whatever index.  The slot `slot` was signed successfully (`h`) under configuration
